@@ -5,6 +5,7 @@ trace of the real `CMA::updatePopulation` (state before, evaluated offspring, ei
 state after) and are re-computed generation by generation with the model (one-step refinement).
 -/
 import SharkVerif.Model.CMA
+import SharkVerif.Model.ES
 open SharkVerif.Opt SharkVerif.Opt.CMA
 
 def hexVal (c : Char) : Option Nat :=
@@ -84,7 +85,11 @@ def checkGen (n mu rec : Nat) (before after : String) : Option (Nat × String) :
      ("bestPoint", match best with | some b => cmpVec b.point aBP | none => 2),
      ("bestValue", match best with | some b => cmpNum 0 b.fitness aBV | none => 2)]
   let worst := res.foldl (fun (acc : Nat × String) (r : String × Nat) => if r.2 > acc.1 then (r.2, r.1) else acc) (0, "")
-  some worst
+  -- `ElitistSelection` uses std::sort, which is not stable beyond 16 elements: with tied fitness values the C++ may
+  -- select other individuals than the model's stable sort; such generations are counted, not compared (code 3)
+  let sorted := Fv.mergeSort (fun a b => decide (a ≤ b))
+  let ties := (List.zip sorted (sorted.drop 1)).any fun (a, b) => a == b
+  if worst.1 == 2 && ties && off.length > 16 then some (3, "ties") else some worst
 
 def xtrace (line : String) : String :=
   match line.splitOn " | " with
@@ -101,22 +106,212 @@ def xtrace (line : String) : String :=
       | some i => s!"MISMATCH generation {i} {match rs.getD i none with | some (_, f) => f | none => "unparsable"}"
       | none =>
         let bits := (rs.filter fun r => match r with | some (0, _) => true | _ => false).length
-        s!"ok gens={rs.length} bits={bits} tol={rs.length - bits}"
+        let ties := (rs.filter fun r => match r with | some (3, _) => true | _ => false).length
+        s!"ok gens={rs.length} bits={bits} tol={rs.length - bits - ties} ties={ties}"
     | _, _, _ => "bad-op"
+
+/-- `VDCMA::suggestLambda`: unsigned(4 + floor(3 ln n)) (no lower bound of 5) -/
+def vdSuggestLambda (n : Nat) : Nat := (4.0 + Float.floor (3.0 * Float.log n.toFloat)).toUInt64.toNat
+
+open SharkVerif.Gen.CMAParams in
+/-- strategy constants of every class from the REGENERATED formulas, at Float -/
+def coeffs (kind : String) (n lambda mu rec : Nat) : String :=
+  let hx (l : List Float) := ",".intercalate (l.map hexF)
+  match kind with
+  | "cma" =>
+    let lambda' := if lambda == 0 then suggestLambda n else lambda
+    let mu' := if lambda == 0 then suggestMu lambda' rec else mu
+    let c := doInitCoeffs FF n mu' rec
+    s!"lambda={lambda'} mu={mu'} c={hx [c.cC, c.c1, c.cMu, c.cSigma, c.dSigma, c.muEff]} w={hx c.weights}"
+  | "cmsa" =>
+    let lambda' := if lambda == 0 then cmsa_defaultLambda n else lambda
+    let mu' := if lambda == 0 then cmsa_defaultMu lambda' else mu
+    let k := cmsa_consts FF n mu'
+    s!"lambda={lambda'} mu={mu'} c={hx [k.cSigma, k.cC]}"
+  | "vdcma" =>
+    let lambda' := if lambda == 0 then vdSuggestLambda n else lambda
+    let mu' := if lambda == 0 then lambda' / 2 else mu
+    let w := normalise ((List.range mu').map fun i => vdcma_rawWeight FF mu' i)
+    let k := vdcma_consts FF n (sumSq w)
+    s!"lambda={lambda'} mu={mu'} c={hx [k.muEff, k.cSigma, k.dSigma, k.cC, k.c1, k.cMu]} w={hx w}"
+  | "ecma" =>
+    let k := ecma_consts FF n
+    s!"c={hx [k.pTarget, k.dStep, k.cP, k.cPath, k.cCov, k.cUnlearn]}"
+  | "lmcma" =>
+    let lambda' := if lambda == 0 then suggestLambda n else lambda
+    let mu' := if lambda == 0 then lambda' / 2 else mu
+    let k := lmcma_consts FF n lambda'
+    s!"lambda={lambda'} mu={mu'} c={hx [k.c1, k.cC]}"
+  | _ => "bad-op"
+
+/-! ## the other strategies (Model/ES.lean) -/
+open SharkVerif.Opt.ES
+
+/-- the harness' objectives, same scalar loops at Float -/
+def objective (kind : String) (n : Nat) (A b : List Float) (x : List Float) : Float :=
+  match kind with
+  | "quad" =>
+    (List.range n).foldl (fun v i =>
+      let r := (List.range n).foldl (fun r j => r + A.getD (i * n + j) 0 * x.getD j 0) 0.0
+      v + x.getD i 0 * (0.5 * r - b.getD i 0)) 0.0
+  | "rosen" =>
+    (List.range (n - 1)).foldl (fun v i =>
+      let a := x.getD (i + 1) 0 - x.getD i 0 * x.getD i 0
+      let c := 1.0 - x.getD i 0
+      v + (100.0 * (a * a) + c * c)) 0.0
+  | "plateau" => Float.floor (4.0 * x.foldl (fun v xi => v + xi * xi) 0.0) * 0.25
+  | _ => x.foldl (fun v xi => v + xi * xi) 0.0
+
+def worstOf (rs : List (String × Nat)) : Nat × String :=
+  rs.foldl (fun (acc : Nat × String) (r : String × Nat) => if r.2 > acc.1 then (r.2, r.1) else acc) (0, "")
+
+def verdict (rs : List (Option (Nat × String))) : String :=
+  match rs.findIdx? (fun r => match r with | none => true | some (c, _) => c == 2) with
+  | some i => s!"MISMATCH generation {i} {match rs.getD i none with | some (_, f) => f | none => "unparsable"}"
+  | none =>
+    let bits := (rs.filter fun r => match r with | some (0, _) => true | _ => false).length
+    let ties := (rs.filter fun r => match r with | some (3, _) => true | _ => false).length
+    s!"ok gens={rs.length} bits={bits} tol={rs.length - bits - ties} ties={ties}"
+
+def hasTies (fv : List Float) : Bool :=
+  let sorted := fv.mergeSort (fun a b => decide (a ≤ b))
+  (List.zip sorted (sorted.drop 1)).any fun (a, b) => a == b
+
+/-- columns of a row-major n×n matrix -/
+def columns (n : Nat) (m : List Float) : List (List Float) :=
+  (List.range n).map fun j => (List.range n).map fun i => m.getD (i * n + j) 0
+def rowMajor (n : Nat) (cols : List (List Float)) : List Float :=
+  (List.range n).flatMap fun i => (List.range n).map fun j => (cols.getD j []).getD i 0
+
+def fnum (fs : List (String × String)) (k : String) : Option Float := (parseBits (field fs k)).map Float.ofBits
+
+/-- `xsimplex <kind> <n> <A> <b> ## <steps> ## <x0> ## <harness trace>`: the whole run re-computed from x0 -/
+def xsimplex (line : String) : String :=
+  match line.splitOn " ## " with
+  | [obj, _steps, x0s, trace] =>
+    match (obj.splitOn " ").filter (· ≠ "") with
+    | kind :: ns :: rest =>
+      match ns.toNat?, floats x0s.trimAscii.toString with
+      | some n, some x0 =>
+        let A := ((rest.take (n * n)).filterMap parseBits).map Float.ofBits
+        let b := (((rest.drop (n * n)).take n).filterMap parseBits).map Float.ofBits
+        let f := objective kind n A b
+        let states := (trace.splitOn " | ").map fun st =>
+          parseFields (if st.startsWith "simplex " then (st.drop 8).toString else st)
+        let rs := states.zipIdx.map fun (fs, t) => do
+          let m := simplexRun f x0 t
+          let bp ← floats (field fs "BP"); let bv ← fnum fs "BV"
+          let sx ← floats (field fs "SX"); let sv ← floats (field fs "SV")
+          some (worstOf [("bestPoint", cmpVec m.best.point bp), ("bestValue", cmpNum 0 m.best.value bv),
+            ("simplexPoints", cmpVec (m.simplex.flatMap (·.point)) sx), ("simplexValues", cmpVec (m.simplex.map (·.value)) sv)])
+        verdict rs
+      | _, _ => "bad-op"
+    | _ => "bad-op"
+  | _ => "bad-op"
+
+open SharkVerif.Gen.CMAParams in
+def xecma (line : String) : String :=
+  match line.splitOn " | " with
+  | [] => "bad-op"
+  | hdr :: gens =>
+    let fh := parseFields hdr
+    match (field fh "n").toNat?, (field fh "active").toNat? with
+    | some n, some act =>
+      let c := ecma_consts FF n
+      let rs := gens.map fun g =>
+        match g.splitOn " > " with
+        | [b, a] => do
+          let fb := parseFields b; let fa := parseFields a
+          let th ← fnum fb "TH"
+          let k : EcmaConsts Float := { pTarget := c.pTarget, dStep := c.dStep, cP := c.cP, cPath := c.cPath, cCov := c.cCov,
+                                        cUnlearn := c.cUnlearn, threshold := th, active := act == 1 }
+          let s : Ecma Float := { sigma := ← fnum fb "S", pSucc := ← fnum fb "P", path := ← floats (field fb "PC"),
+                                  L := columns n (← floats (field fb "L")), anc := ← floats (field fb "AF"),
+                                  bestPoint := ← floats (field fb "BP"), bestValue := ← fnum fb "BV", x := ← floats (field fb "X") }
+          let z ← floats (field fb "Z"); let y ← floats (field fb "Y")
+          let fp ← fnum fb "FP"; let fu ← fnum fb "FU"
+          let threw := field fb "threw" == "1"
+          let zz := Vec.normSqr z
+          -- the sampled step is `L z` (triangular product, BLAS): checked with tolerance
+          let lz := (List.range n).map fun i => (List.range n).foldl (fun acc j => acc + ((s.L.getD j []).getD i 0) * z.getD j 0) 0.0
+          match ecmaStep FF k s y zz fp fu with
+          | none => some (if threw then 0 else 2, "throw")
+          | some s' =>
+            if threw then some (2, "throw") else
+            some (worstOf [("step=Lz", cmpVec lz y), ("sigma", cmpNum s'.sigma.abs s'.sigma (← fnum fa "S")), ("pSucc", cmpNum 1 s'.pSucc (← fnum fa "P")),
+              ("path", cmpVec s'.path (← floats (field fa "PC"))), ("L", cmpVec (rowMajor n s'.L) (← floats (field fa "L"))),
+              ("ancestral", cmpVec s'.anc (← floats (field fa "AF"))), ("bestPoint", cmpVec s'.bestPoint (← floats (field fa "BP"))),
+              ("bestValue", cmpNum 0 s'.bestValue (← fnum fa "BV")), ("searchPoint", cmpVec s'.x (← floats (field fa "X")))])
+        | _ => none
+      verdict rs
+    | _, _ => "bad-op"
+
+open SharkVerif.Gen.CMAParams in
+def xcmsa (line : String) : String :=
+  match line.splitOn " | " with
+  | [] => "bad-op"
+  | hdr :: gens =>
+    let fh := parseFields hdr
+    match (field fh "n").toNat?, (field fh "mu").toNat? with
+    | some n, some mu =>
+      let cC := cmsa_cC FF n mu
+      let rs := gens.map fun g =>
+        match g.splitOn " > " with
+        | [b, a] => do
+          let fb := parseFields b; let fa := parseFields a
+          let s : Cmsa Float := { sigma := ← fnum fb "S", mean := ← floats (field fb "M"), L := columns n (← floats (field fb "L")) }
+          let fv ← floats (field fb "F"); let xs ← floats (field fb "X"); let ys ← floats (field fb "Y"); let si ← floats (field fb "SI")
+          let off : List (CmsaInd Float) := (List.zip (List.zip (chunk n xs) (chunk n ys)) (List.zip si fv)).map
+            fun ((x, y), (sg, f)) => { point := x, step := y, sigma := sg, fitness := f }
+          let sel := cmsaSelect off mu
+          match cmsaUpdate FF cC n mu s sel, sel.head? with
+          | some s', some best =>
+            let w := worstOf [("sigma", cmpNum s'.sigma.abs s'.sigma (← fnum fa "S")), ("mean", cmpVec s'.mean (← floats (field fa "M"))),
+              ("L", cmpVec (rowMajor n s'.L) (← floats (field fa "L"))), ("bestPoint", cmpVec best.point (← floats (field fa "BP"))),
+              ("bestValue", cmpNum 0 best.fitness (← fnum fa "BV"))]
+            if w.1 == 2 && hasTies fv && off.length > 16 then some (3, "ties") else some w
+          | _, _ => some (2, "throw-or-empty")
+        | _ => none
+      verdict rs
+    | _, _ => "bad-op"
+
+def xcem (line : String) : String :=
+  match line.splitOn " | " with
+  | [] => "bad-op"
+  | hdr :: gens =>
+    let fh := parseFields hdr
+    match (field fh "n").toNat?, (field fh "mu").toNat? with
+    | some n, some mu =>
+      let rs := gens.map fun g =>
+        match g.splitOn " > " with
+        | [b, a] => do
+          let fb := parseFields b; let fa := parseFields a
+          let fv ← floats (field fb "F"); let xs ← floats (field fb "X")
+          let off : List (List Float × Float) := List.zip (chunk n xs) fv
+          let sel := gselect off mu
+          let (m, v) := cemUpdate (0.0 : Float) n (sel.map (·.1))
+          match sel.head? with
+          | some best =>
+            let w := worstOf [("mean", cmpVec m (← floats (field fa "M"))), ("variance", cmpVec v (← floats (field fa "V"))),
+              ("bestPoint", cmpVec best.1 (← floats (field fa "BP"))), ("bestValue", cmpNum 0 best.2 (← fnum fa "BV"))]
+            if w.1 == 2 && hasTies fv && off.length > 16 then some (3, "ties") else some w
+          | none => some (2, "empty")
+        | _ => none
+      verdict rs
+    | _, _ => "bad-op"
 
 def step (line : String) : String :=
   let l := line.trimAscii.toString
   if l.startsWith "xtrace " then xtrace (l.drop 7).toString else
+  if l.startsWith "xsimplex " then xsimplex (l.drop 9).toString else
+  if l.startsWith "xecma " then xecma (l.drop 6).toString else
+  if l.startsWith "xcmsa " then xcmsa (l.drop 6).toString else
+  if l.startsWith "xcem " then xcem (l.drop 5).toString else
   let toks := (l.splitOn " ").filter (· ≠ "")
   match toks with
-  | ["coeffs", n, lambda, mu, rec] =>
+  | ["coeffs", kind, n, lambda, mu, rec] =>
     match n.toNat?, lambda.toNat?, mu.toNat?, rec.toNat? with
-    | some n, some lambda, some mu, some rec =>
-      let lambda' := if lambda == 0 then suggestLambda n else lambda
-      let mu' := if lambda == 0 then suggestMu lambda' rec else mu
-      let c := doInitCoeffs FF n mu' rec
-      s!"lambda={lambda'} mu={mu'} c={hexF c.cC},{hexF c.c1},{hexF c.cMu},{hexF c.cSigma},{hexF c.dSigma},{hexF c.muEff} w=" ++
-        ",".intercalate (c.weights.map hexF)
+    | some n, some lambda, some mu, some rec => coeffs kind n lambda mu rec
     | _, _, _, _ => "bad-op"
   | _ => ""
 
